@@ -23,6 +23,11 @@ def newBiMap : List (α × α) → Option (List (α × α))
     | none => none
     | some m => if (m.any (fun p => p.1 = k)) || (m.any (fun p => p.2 = v)) then none else some ((k, v) :: m)
 
+/-- what `StringTranslator.AsLocalToRemoteBiMap` accepts at start-up (config/cluster_conn_config.go): no mapping
+    entry with an empty name, and the list is one-to-one (`NewStaticBiMap` succeeds) -/
+def configAccepts (empty : α) (m : List (α × α)) : Bool :=
+  m.all (fun p => !(p.1 = empty) && !(p.2 = empty)) && (newBiMap m).isSome
+
 /-- `Inverse()` -/
 def inverse (m : List (α × α)) : List (α × α) := m.map (fun p => (p.2, p.1))
 
